@@ -2460,6 +2460,12 @@ func (d *Document) parseRun(decoder *xml.Decoder, startElement xml.StartElement)
 					return nil, err
 				}
 				run.Drawing = drawing
+			case "br":
+				// 解析换行/分页符
+				run.Break = &Break{Type: getAttributeValue(t.Attr, "type")}
+				if err := d.skipElement(decoder, t.Name.Local); err != nil {
+					return nil, err
+				}
 			default:
 				if err := d.skipElement(decoder, t.Name.Local); err != nil {
 					return nil, err
